@@ -135,8 +135,20 @@ Proof.
 Qed.
 
 (* the text-level wrapper never fails: unparsable input is returned unchanged *)
-Lemma strip_text_total : forall p, strip_text p = Unchanged \/ exists d, strip_text p = Stripped d.
-Proof. intros [d|]; [right; exists (strip d); reflexivity | left; reflexivity]. Qed.
+Lemma strip_text_total : forall mok p, strip_text mok p = Unchanged \/ exists d, strip_text mok p = Stripped d.
+Proof. intros [|] [d|]; try (left; reflexivity). right; exists (strip d); reflexivity. Qed.
+
+(* the input comes back as it was exactly when one of the two library calls failed *)
+Lemma strip_text_unchanged_iff : forall mok p, strip_text mok p = Unchanged <-> p = None \/ mok = false.
+Proof.
+  intros [|] [d|]; cbn [strip_text]; split; intros H; try reflexivity; try discriminate; auto.
+  destruct H; discriminate.
+Qed.
+
+Lemma strip_text_stripped : forall mok p d', strip_text mok p = Stripped d' -> mok = true /\ exists d, p = Some d /\ d' = strip d.
+Proof.
+  intros [|] [d|] d' H; cbn [strip_text] in H; try discriminate. inversion H. split; [reflexivity|]. exists d. split; reflexivity.
+Qed.
 
 (* ---------------------------------------------------------------- remoteIPFromSDP (C13) *)
 
